@@ -500,6 +500,11 @@ pub fn fuzz_domain(c: &mut Case) -> bool {
     true
 }
 
+/// cases decoded from byte strings (see `engine::decoded_strategy`)
+pub fn bytes_strategy(_tier: Tier) -> BoxedStrategy<Case> {
+    decoded_strategy(fuzz_domain)
+}
+
 pub fn property() -> Property {
     Property {
         id: "C04",
@@ -510,7 +515,7 @@ pub fn property() -> Property {
         ],
         both_profiles: false,
         subs: vec![
-            sub_fuzz("matrix/history", 400_000, 5_000_000, strategy, run, fuzz_domain),
+            sub_fuzz("matrix/history", 400_000, 5_000_000, strategy, run, fuzz_domain), sub("matrix/history-from-bytes", 300_000, 5_000_000, bytes_strategy, run),
             sub("matrix/u8-capacity", 30_000, 1_000_000, capacity_strategy, run),
         ],
     }
